@@ -108,14 +108,13 @@ _ternary_table: dict[type[TernaryOp], FunctionType] = {
 
 
 def _merge_length(a: int | NamedId | None, b: int | NamedId | None) -> int | NamedId | None:
-    """Keep the more specific of two list lengths: ``concrete > symbolic >
-    None``.  Used when unifying two list types; never fails (length is
-    metadata)."""
-    if isinstance(a, int):
+    """The length two list types agree on, if they do, else unknown.  Used
+    when unifying two list types; never fails (length is metadata) -- but
+    the unified type is also that of a value which may be *either* list
+    (``A if c else ys``), so a length one side alone states is not kept."""
+    if a == b:
         return a
-    if isinstance(b, int):
-        return b
-    return a if a is not None else b
+    return None
 
 
 def _drop_symbolic_lengths(ty: Type) -> Type:
